@@ -17,7 +17,13 @@ LEVEL = "proof"
 import os as _os
 _PCXX = _os.path.join(_os.path.dirname(_os.path.abspath(__file__)), "pcxx.py")
 HARNESSES = [{"name": "main", "src": "harness.cpp", "compiler": _PCXX,
-              "flags": ["-O0", "-DTETL_ENABLE_CONTRACT_CHECKS=1", "-DC12_NPARTS=4"], "args": ["--nofork"]}]
+              "flags": ["-O0", "-DTETL_ENABLE_CONTRACT_CHECKS=1", "-DC12_NPARTS=4"], "args": ["--nofork"]},
+             # thorough only: UBSan in trap mode, one supervised child (a trap = "crash 4"); executes the "ub_*" cases
+             # (inputs on which the model says Ub) and re-runs every in-domain case under the sanitizer
+             {"name": "ubsan", "src": "harness.cpp", "compiler": _PCXX, "thorough_only": True,
+              "flags": ["-O0", "-DTETL_ENABLE_CONTRACT_CHECKS=1", "-DC12_NPARTS=4", "-DC12_UBSAN=1",
+                        "-fsanitize=signed-integer-overflow,integer-divide-by-zero", "-fsanitize-undefined-trap-on-error"],
+              "env": {"C12_UB_LEG": "1"}}]
 
 RULE = ("for every ordered pair of the 10 periods {nano, micro, milli, 1, 60, 3600, 86400, 1/3, 5/7, 1001/30000} "
         "(int64 reps): every count in [-2000, 2000] through duration_cast/floor/ceil/round, plus exact ties, exact "
@@ -286,9 +292,42 @@ def gen(tier, rng):
                 # floating-point target representation (tested only)
                 if rc == 0:
                     for c in list(range(-40, 41, 7 if not quick else 19)) + ic[::(9 if not quick else 23)]:
-                        if fits(64, c) and abs(c) < 2**53 and abs(c * P.cn) < 2**53:
+                        # beyond 2^53 the int -> double conversion and the product round (model: Flocq, round to
+                        # nearest even); the theorems cover |c|, |c*cn| <= 2^53
+                        if fits(P.w1, c):
                             out.append(f"{h('fcast_if')} {c}")
                             out.append(f"{h('fconv_if')} {c}")
+                # ---- undefined behaviour (thorough tier, UBSan variant): the model says Ub exactly here
+                if not quick and (core or i == j):
+                    ubc = set()
+                    if P.cn > 1:
+                        for k in (1, 2, 3, 1000, rng.randint(1, 10**6)):
+                            ubc.update((MAX64 // P.cn + k, -(MAX64 // P.cn) - 1 - k))     # c * cn leaves intmax_t
+                        ubc.update((MAX64 // P.cn, -(MAX64 // P.cn) - 1, MAX64 // P.cn - 1))   # ... just does not
+                    # (a multiply-only cast narrowed to int32 is not observable: g++ shortens (int32)(x * num) to a
+                    #  32-bit unsigned multiplication in the front end, before UBSan instruments it)
+                    for c in sorted(ubc):
+                        if fits(P.w1, c) and not (P.w2 == 32 and P.cd == 1):
+                            out.append(f"{h('ub_cast')} {c}")
+                    if P.w2 == 32 or P.cn == 1:
+                        # floor / ceil step out of the target representation: t - 1 below min, t + 1 above max
+                        lo, hi = -(1 << (P.w2 - 1)), (1 << (P.w2 - 1)) - 1
+                        for tgt, opn in ((lo, 'ub_floor'), (hi, 'ub_ceil')):
+                            c0 = tgt * P.B // P.A
+                            for c in range(c0 - 2, c0 + 3):
+                                if P.cast_ok(c) and P.both_ok(c, P.cast(c)):
+                                    out.append(f"{h(opn)} {c}")
+                if not quick and P.common_ok and (core or i == j):
+                    lo, hi = -(1 << (P.wc - 1)), (1 << (P.wc - 1)) - 1
+                    l1 = min((1 << (P.w1 - 1)) - 1, hi // P.f1)
+                    l2 = min((1 << (P.w2 - 1)) - 1, hi // P.f2)
+                    for (c1, c2) in ((l1, l2), (l1, 1), (1, l2), (-l1, -l2), (-l1 - 1, -1), (l1, -l2), (-l1, l2),
+                                     (l1 // 2 + 1, l2 // 2 + 1), (l1, 0), (0, l2), (7, 0), (-l1 - 1, 0), (lo, -1), (lo, 1)):
+                        if P.both_ok(c1, c2):
+                            out.append(f"{h('ub_plus')} {c1} {c2}")
+                            out.append(f"{h('ub_minus')} {c1} {c2}")
+                            out.append(f"{h('ub_div')} {c1} {c2}")
+                            out.append(f"{h('ub_mod')} {c1} {c2}")
                 # ---- two counts
                 if not P.common_ok:
                     continue
